@@ -19,7 +19,9 @@ def c11_plan(tier):
         return rc, {
             "mc": G.consts(MaxVer=4, MaxSlots=1, Features=feats, Crashers={"a"}),
             "mc2": G.consts(MaxVer=4, Features={"leave", "lose", "expire"}, Crashers={"a"}),
-            "covers": [G.consts(MaxVer=3, MaxSlots=1, Features=feats, Crashers={"a"})],
+            "covers": [G.consts(MaxVer=2, MaxSlots=1, Features={"lose", "expire", "liveness"}, Crashers={"a"},
+                                Budgets={99}),
+                       G.consts(MaxVer=3, MaxSlots=1, Features={"leave", "expire"}, Budgets={99})],
             "sim": (G.consts(Node={"a", "b", "c"}, MaxVer=5, MaxSlots=3, Writers={"a", "c"}, Crashers={"c"},
                              Features=feats | {"compact", "dup"}, Budgets={2, 3, 99}), 240, 60),
             "walks": (200, 90),
